@@ -215,12 +215,16 @@ Definition check_cases_deep (cs : list (nat * tcase)) : list (nat * list nat) :=
 (* ---------- unit correspondence: inner functions run on synthetic states ---------- *)
 (* the implementation's vbalance / normalize on an arbitrary feasible layering against the model's *)
 Definition unit_check (fn : nat) (before after : graph) : bool :=
-  let m := match fn with
-           | 1%nat => vbalance before
-           | 2%nat => normalize before
-           | _ => before
-           end in
-  forall2b node_eqb_layer (g_na m) (g_na after).
+  match fn with
+  | 1%nat => forall2b node_eqb_layer (g_na (vbalance before)) (g_na after)
+  | 2%nat => forall2b node_eqb_layer (g_na (normalize before)) (g_na after)
+  | 4%nat | 5%nat =>
+      match phase1 (if Nat.eqb fn 4 then Greedy else DepthFirst) before with
+      | Ok m => forall2b node_eqb_struct (g_na m) (g_na after) && forall2b edge_eqb_struct (g_ea m) (g_ea after)
+      | Err _ => false
+      end
+  | _ => false
+  end.
 
 Definition unit_cases_failing (cs : list (nat * (nat * graph * graph))) : list nat :=
   flat_map (fun c => let '(i, (fn, b, a)) := c in if unit_check fn b a then [] else [i]) cs.
